@@ -23,10 +23,12 @@ CLAIM = {
 RULE = ('log passes of 1-3 frame types interleaved in one logical file, 1-5 channels each of every fixed-length numeric '
         'representation code and dimensions up to 3-D (first channel scalar), 1-30 frames per type plus data-less frame '
         'records and encrypted records, encoded by the Lean spec (tables through the C03 encoder), wrapped physically and '
-        'indexed by the real LogicalIndex; per frame type a history of 2-6 populate calls with different slice / sample / '
-        'channel selections on the same index. A case is non-trivial when a call selects at least 2 and fewer than all '
+        'indexed by the real LogicalIndex; per frame type a history of 2-6 populate calls with different slice (None parts, '
+        'bounds inside/at/far beyond +-n, positive and NEGATIVE steps, |step| up to beyond n) / sample / '
+        'channel selections on the same index; the oracle is Python slicing list(range(n))[start:stop:step] of the full population, in that order. A case is non-trivial when a call selects at least 2 and fewer than all '
         'frames or a proper channel subset; distinct by (file bytes, call).')
-ASSUMPTIONS = ['the first channel of a frame is scalar (RP66V1 5.7.1: the index channel must be scalar); X is then the mean of one element',
+ASSUMPTIONS = ['slices are Python slices with any non-zero step (negative steps populate rows in reverse order); step 0 is a ValueError in Python itself',
+               'the first channel of a frame is scalar (RP66V1 5.7.1: the index channel must be scalar); X is then the mean of one element',
                'a selection selects at least one frame (otherwise ExceptionFrameArray is raised - exercised as correspondence)',
                'channel identifiers are ASCII and distinct within a frame']
 TRUSTED = ['modelled, not verified: numpy casts and indexing, struct.unpack, itertools.product order',
@@ -186,12 +188,22 @@ def gen_frames(rng, lp):
 
 
 def gen_sel(rng, n):
+    """None (all frames) / any Python slice: None parts, bounds inside, at and far beyond +-n, positive AND negative
+    steps, |step| from 1 to beyond n / Sample."""
     r = rng.random()
-    if r < 0.2: return None
-    if r < 0.7:
-        lo = None if rng.random() < 0.4 else rng.choice([rng.randint(0, max(0, n // 2)), rng.randint(-n - 2, n + 2)])
-        hi = None if rng.random() < 0.4 else rng.choice([rng.randint(n // 2, n + 2), rng.randint(-n - 2, n + 2)])
-        return ['slice', lo, hi, None if rng.random() < 0.3 else rng.choice([1, 2, 3, rng.randint(1, n + 1)])]
+    if r < 0.15: return None
+    if r < 0.75:
+        far = lambda: rng.choice([-3 * n - 7, -n - 1, -n, n - 1, n, n + 1, 3 * n + 7, rng.randint(-n - 2, n + 2)])
+        neg = rng.random() < 0.45
+        if neg:      # start high, stop low so that most negative-step slices select something
+            lo = None if rng.random() < 0.35 else rng.choice([rng.randint(n // 2, n + 2), rng.randint(-max(1, n // 2), -1), far()])
+            hi = None if rng.random() < 0.35 else rng.choice([rng.randint(-1, max(0, n // 2)), rng.randint(-n - 2, -max(1, n // 2)), far()])
+            st = -rng.choice([1, 1, 2, 3, 4, n, n + 1, 2 * n + 3, rng.randint(1, n + 1)])
+        else:
+            lo = None if rng.random() < 0.35 else rng.choice([rng.randint(0, max(0, n // 2)), rng.randint(-n - 2, -max(1, n // 2)), far()])
+            hi = None if rng.random() < 0.35 else rng.choice([rng.randint(n // 2, n + 2), rng.randint(-max(1, n // 2), -1), far()])
+            st = None if rng.random() < 0.25 else rng.choice([1, 2, 3, 4, n, n + 1, 2 * n + 3, rng.randint(1, n + 1)])
+        return ['slice', lo, hi, st]
     return ['sample', rng.choice([1, 2, 3, n, n + 1, rng.randint(1, max(1, n))])]
 
 
@@ -379,6 +391,10 @@ def run_case(ctx, mods, lp, frames, recs, calls_by_ft, model_index, model_pop, r
                           ctx.nontriv((hash(data), k, j))
                       if sub: ctx.count('calls_channel_subset')
                       if sel is not None: ctx.count('calls_' + sel[0])
+                      if sel is not None and sel[0] == 'slice' and sel[3] is not None and sel[3] < 0:
+                          ctx.count('calls_slice_negative_step')
+                          if len(idx) >= 2: ctx.count('calls_slice_negative_step_reversed_rows')
+                      if sel is not None and sel[0] == 'slice' and sel[3] is not None and abs(sel[3]) > len(rows): ctx.count('calls_slice_step_beyond_n')
                       if any(len(c['dims']) >= 2 for c in ft['chans']): ctx.count('calls_multidim')
     except Exception as err:   # a well-formed file and a selection of at least one frame must not raise
         fails.append(f'indexing or populating a well-formed file raised {type(err).__name__}: {str(err)[:120]}')
